@@ -17,6 +17,9 @@ from pathlib import Path
 
 ROOT = Path(__file__).resolve().parent.parent
 EVID = ROOT / "evidence"
+if os.path.realpath(os.environ.get("VERIF_REPO", "/repo")) != "/repo":
+    # maintainer runs against a scratch worktree (seeded changes) never touch the committed evidence
+    EVID = ROOT / "gen" / "evidence-scratch"
 REPLAYS = ROOT / "replays"
 KNOWN = ROOT / "known_findings.json"
 
